@@ -182,3 +182,94 @@ def gen_unit(rng):
         out.append("\n".join(lines))
     rng.shuffle(out)
     return "\n\n".join(out) + "\n"
+
+
+# ---- xform_resolve_late_bound_type_initializer against Model/Rules.v (xform_type_init) ----
+def check_types(run, filesets, info, tag):
+    """The harness applies the earlier transformations, emits the type facts, applies the transformation and emits the type
+    facts of its result (or its diagnostics); the model gets the facts before and must give the same initializer kinds in
+    the same order, or the same diagnostics (code, place; 'not implemented' by code only)."""
+    if not filesets or not info.get("extract_ok"):
+        return 0, 0
+    cases = [{"id": i, "op": "latebound", "files": [[n, hexs(t)] for n, t in fs]} for i, fs in enumerate(filesets)]
+    res = vlib.run_impl(cases, run.workdir, per_case_timeout=30)
+    lines = []
+    for i, r in enumerate(res):
+        if "before" not in r or r.get("parse_errs"):
+            continue      # a file did not parse, or an earlier transformation failed
+        lines.append(("latebound", i, r["before"]))
+    model = vlib.run_model(lines, run.workdir)
+    compared = bad = 0
+    for op, i, facts in lines:
+        m = model.get(str(i))
+        r = res[i]
+        text = "\n".join(t for _, t in filesets[i])
+        rep = {"input": {"text": text, "files": [[n, t] for n, t in filesets[i]]}, "type_facts": facts}
+        if not m or m[0] not in ("ok", "err"):
+            bad += 1
+            run.violation("correspondence", "the transformation model gave no answer (%r) for: %s" % (m, text[:160].replace("\n", " ")), rep, no_input=True)
+            continue
+        compared += 1
+        run.cov["traces_validated_against_impl"] += 1
+        run.count(("typefacts", tuple(filesets[i])), True, "type-facts:" + tag)
+        if "after" in r:
+            got = ("ok", [f.split(",")[1] for f in r["after"] if f.startswith("IK,")])
+        else:
+            got = ("err", impl_list(r.get("diags", [])))
+        if m[0] == "ok":
+            want = ("ok", (m[1].split() if len(m) > 1 else []))
+        else:
+            want = ("err", model_list(m[1] if len(m) > 1 and m[1] else "-"))
+            for c in sorted(set(c for c, _ in want[1])):
+                run.count(("xform-code", c, tuple(filesets[i])), False, "xform-model-code:P%04d" % c)
+        if want == got:
+            continue
+        bad += 1
+        if want[0] != got[0] or (want[0] == "err" and set(c for c, _ in want[1]) != set(c for c, _ in got[1])):
+            what = "xform_resolve_late_bound_type_initializer %s, the documented behaviour is %s" % (
+                "accepts" if got[0] == "ok" else "reports %r" % ["P%04d" % c for c, _ in got[1]],
+                "to accept" if want[0] == "ok" else "to report %r" % ["P%04d" % c for c, _ in want[1]])
+            run.violation("impl-violates-property", what + ": " + text[:200].replace("\n", " "), dict(rep, model=want, impl=got))
+        else:
+            run.cov["disagreements_checked"] += 1
+            run.violation("correspondence", "the transformation gives %r, the model computes %r: %s" % (got, want, text[:200].replace("\n", " ")),
+                          rep, no_input=True)
+    return compared, bad
+
+
+TYPE_POOL = ["Ta", "Tb", "Tc", "Td", "Te"]
+
+
+def gen_type_unit(rng):
+    """a small unit around type references: data types of every kind and function blocks named from a small pool (so that
+    references hit declared, undeclared, elementary, standard and duplicate names), variables and structure elements of
+    those types, written in varying letter case"""
+    out = []
+    names = rng.sample(TYPE_POOL, rng.randint(1, 4))
+    if rng.random() < 0.06:
+        names.append(names[0])                  # a duplicate declaration
+    for n in names:
+        k = rng.random()
+        if k < 0.2:
+            out.append("TYPE\n  %s : (x1, x2);\nEND_TYPE" % n)
+        elif k < 0.35:
+            fields = ["    f%d : %s;" % (j, _case(rng, rng.choice(TYPE_POOL + ["INT", "BOOL", "DINT"]))) for j in range(rng.randint(1, 2))]
+            out.append("TYPE\n  %s : STRUCT\n%s\n  END_STRUCT;\nEND_TYPE" % (n, "\n".join(fields)))
+        elif k < 0.45:
+            out.append("TYPE\n  %s : ARRAY [1..3] OF INT;\nEND_TYPE" % n)
+        elif k < 0.55:
+            out.append("TYPE\n  %s : STRING[8];\nEND_TYPE" % n)
+        elif k < 0.62:
+            out.append("TYPE\n  %s : INT (1..9);\nEND_TYPE" % n)
+        elif k < 0.68:
+            out.append("TYPE\n  %s : INT;\nEND_TYPE" % n)
+        else:
+            out.append("FUNCTION_BLOCK %s\nVAR_INPUT\n  i1 : INT;\nEND_VAR\nEND_FUNCTION_BLOCK" % n)
+    lines = ["FUNCTION_BLOCK User", "VAR"]
+    for j in range(rng.randint(1, 5)):
+        t = rng.choice(TYPE_POOL + TYPE_POOL + ["INT", "BOOL", "LREAL", "TON", "ctu", "TIME", "NoSuch"])
+        lines.append("  v%d : %s;" % (j, _case(rng, t)))
+    lines += ["END_VAR", "END_FUNCTION_BLOCK"]
+    out.append("\n".join(lines))
+    rng.shuffle(out)
+    return "\n\n".join(out) + "\n"
